@@ -43,7 +43,7 @@ PROPS = {
             'expect': ['c07_q_f64:lemma_C07_scale_Length_Inch', 'c07_q_dec:lemma_C07_scale_Length_Inch', 'c07_astro_f64:lemma_C07_scale_Length_Parsec',
                        'c07_q_f64:lemma_C07_si_prefixes_consistent_Mass', 'types_q_f64_ref:lemma_C07_ref_unit_scale_one_Length',
                        'types_q_f64_ref:impl LinearScaledUnit for LengthUnit::scale']},
-    'C08': {'level': 'proof', 'quick': ['gen_hasref'] + TYPES_Q, 'thorough': TYPES_FIX,
+    'C08': {'level': 'proof', 'quick': ['gen_hasref'] + TYPES_Q + ['kani_q_f64:reg', 'kani_q_f64:m0'], 'thorough': TYPES_FIX,
             'expect': ['gen_hasref:impl Quantity for AmountT::new', 'gen_hasref:impl Quantity for AmountT::amount',
                        'gen_hasref:impl Quantity for AmountT::unit', 'gen_hasref:impl LinearScaledUnit for One::scale',
                        'gen_hasref:impl Mul < One > for AmountT::mul', 'gen_hasref:impl Mul < AmountT > for One::mul']},
